@@ -1149,6 +1149,138 @@ let cp_cmd (toks : string list) : string =
   | ["fuzz"; seed; steps; walks] -> cp_fuzz (int_of_string seed) (int_of_string steps) (int_of_string walks)
   | _ -> "bad-command"
 
+(* ---------- value log (C11): codecs / value log / mini flush (`vp`), state-machine conformance (`vl`) ---------- *)
+let vv_show_val (v : n list) : string =
+  if List.length v > 16 then Printf.sprintf "#%d/%s" (List.length v) (fnv v) else hex_of_bytes v
+let vv_ptr (a : string list) : vpointer =
+  match List.map big_of_string a with
+  | [ver; f; o; k; v; c] -> { vpt_version = ver; vpt_file = f; vpt_offset = o; vpt_ksize = k; vpt_vsize = v; vpt_crc = c }
+  | _ -> failwith "bad pointer"
+let vv_show_ptr (p : vpointer) : string =
+  String.concat "." (List.map dec_of_n [p.vpt_version; p.vpt_file; p.vpt_offset; p.vpt_ksize; p.vpt_vsize; p.vpt_crc])
+let vv_show_stored (sizes_only : bool) (s : n list) : string =
+  if s = [] then "t" else
+    match venc_classify s with
+    | EPtr p -> "p:" ^ vv_show_ptr p
+    | EInline v -> if sizes_only then Printf.sprintf "i:%d" (List.length v) else "i:" ^ vv_show_val v
+    | EBad -> "x:" ^ hex_of_bytes s
+let vv_files (st : vstate) : string =
+  String.concat "," (List.map (fun f -> Printf.sprintf "%s:%d" (dec_of_n f.vf_id) (List.length f.vf_bytes))
+                       (List.sort (fun a b -> compare (int_of_n a.vf_id) (int_of_n b.vf_id)) st.vs_files))
+let vv_entries (sizes_only : bool) (es : tentry list) : string =
+  String.concat "," (List.map (fun e -> hex_of_bytes e.te_key ^ "=" ^ vv_show_stored sizes_only e.te_enc) es)
+let vp_cfg = ref { cf_threshold = N0; cf_max = N0; cf_level = N0; cf_index = false }
+let vp_state = ref vs0
+let vp_show_state () =
+  Printf.sprintf "files=%s active=%s next=%s" (vv_files !vp_state) (dec_of_n !vp_state.vs_active) (dec_of_n !vp_state.vs_next)
+let vp_cmd (args : string list) : string =
+  match args with
+  | ["consts"] ->
+    Printf.sprintf "consts:%s,%s,%s,%s,%s,%d" (dec_of_n vP_SIZE) (dec_of_n vL_BIT_VALUE_POINTER) (dec_of_n vL_VERSION) (dec_of_n vP_VERSION)
+      (dec_of_n vLOG_FORMAT_VERSION) (List.length (vheader_bytes (n_of_int 1) (n_of_int 1) (n_of_int 1)))
+  | "penc" :: rest -> hex_of_bytes (vpointer_encode (vv_ptr rest))
+  | ["pdec"; h] -> (match vpointer_decode (bytes_of_hex h) with Some p -> "ptr:" ^ vv_show_ptr p | None -> "err")
+  | ["lenc"; m; v; value] ->
+    hex_of_bytes (vloc_encode { vlc_meta = big_of_string m; vlc_version = big_of_string v; vlc_value = bytes_of_tok value })
+  | ["ldec"; h] ->
+    (match vloc_decode (bytes_of_hex h) with
+     | Some l -> Printf.sprintf "loc:%s,%s,%d,%s" (dec_of_n l.vlc_meta) (dec_of_n l.vlc_version) (if vloc_is_pointer l then 1 else 0) (vv_show_val l.vlc_value)
+     | None -> "err")
+  | "lptr" :: rest -> hex_of_bytes (vloc_encode (vloc_with_pointer (vv_ptr rest)))
+  | ["linl"; value] -> let e = vloc_encode (vloc_inline (bytes_of_tok value)) in Printf.sprintf "#%d/%s" (List.length e) (fnv e)
+  | ["ptrof"; h] -> (match vloc_pointer_of (bytes_of_hex h) with Some p -> "ptr:" ^ vv_show_ptr p | None -> "none")
+  | ["lognew"; max; full] ->
+    vp_cfg := { cf_threshold = N0; cf_max = big_of_string max; cf_level = (if full = "1" then n_of_int 1 else N0); cf_index = false };
+    vp_state := vs0; "ok"
+  | ["append"; k; v] ->
+    (match vlogi_vs_append !vp_cfg N0 !vp_state (bytes_of_tok k) (bytes_of_tok v) with
+     | Some (st, p) -> vp_state := st; "ptr:" ^ vv_show_ptr p
+     | None -> "err")
+  | "get" :: rest ->
+    let (r, c) = vlogi_vs_get !vp_cfg !vp_state (vv_ptr rest) in
+    vp_state := { !vp_state with vs_cache = c };
+    (match r with Some v -> "val:" ^ vv_show_val v | None -> "err")
+  | ["state"] -> vp_show_state ()
+  | ["file"; id] ->
+    (match find_file (big_of_string id) !vp_state.vs_files with
+     | Some f -> Printf.sprintf "#%d/%s" (List.length f.vf_bytes) (fnv f.vf_bytes)
+     | None -> "none")
+  | ["cleanup"; m] ->
+    let st = vs_cleanup (set_tables !vp_state [{ tb_id = N0; tb_entries = []; tb_oldest = big_of_string m }]) in
+    vp_state := set_tables st []; vp_show_state ()
+  | ["reopen"] ->
+    (match vlogi_step !vp_cfg !vp_state (VReopen false) with Some st -> vp_state := st; vp_show_state () | None -> "err")
+  | ["flush"; th; max; tid; ents] ->
+    let cfg = { cf_threshold = big_of_string th; cf_max = big_of_string max; cf_level = n_of_int 1; cf_index = false } in
+    let mem = if ents = "-" then [] else
+        List.map (fun t ->
+            match String.split_on_char '/' t with
+            | [k; seq; "s"; v] -> (ik_encode { ik_uk = bytes_of_hex k; ik_seq = big_of_string seq; ik_kind = iK_KIND_SET; ik_ts = N0 }, Some (bytes_of_tok v))
+            | [k; seq; "d"; _] -> (ik_encode { ik_uk = bytes_of_hex k; ik_seq = big_of_string seq; ik_kind = iK_KIND_DELETE; ik_ts = N0 }, None)
+            | _ -> failwith "bad flush entry") (String.split_on_char ',' ents) in
+    let tid = big_of_string tid in
+    (match vlogi_step cfg vs0 (VFlush (N0, tid, mem)) with
+     | None -> "err"
+     | Some st ->
+       (match find_table tid st.vs_tables with
+        | None -> "err:no-table"
+        | Some t -> Printf.sprintf "flush:%s;files=%s;active=%s;next=%s;entries=%s" (dec_of_n t.tb_oldest) (vv_files st)
+                      (dec_of_n st.vs_active) (dec_of_n st.vs_next) (vv_entries false t.tb_entries)))
+  | ["sep"; th; raw] ->
+    (match maybe_separate true (big_of_string th) (bytes_of_hex raw) with
+     | VSepPass -> "pass"
+     | VSepAppend v -> Printf.sprintf "append:%d" (List.length v)
+     | VSepErr -> "err")
+  | _ -> "bad-command"
+
+let vl_cfg = ref { cf_threshold = N0; cf_max = N0; cf_level = N0; cf_index = false }
+let vl_state = ref vs0
+let vl_zeros (n : int) : n list = List.init n (fun _ -> N0)
+let vl_show () : string =
+  let st = !vl_state in
+  let tables = List.sort (fun a b -> compare (int_of_n a.tb_id) (int_of_n b.tb_id)) st.vs_tables in
+  Printf.sprintf "vlog:files=%s;active=%s;next=%s;min=%s;tables=%s;index=%s" (vv_files st) (dec_of_n st.vs_active) (dec_of_n st.vs_next)
+    (dec_of_n (min_oldest st.vs_tables))
+    (String.concat "|" (List.map (fun t -> Printf.sprintf "%s/%s[%s]" (dec_of_n t.tb_id) (dec_of_n t.tb_oldest) (vv_entries true t.tb_entries)) tables))
+    (if !vl_cfg.cf_index then "[" ^ vv_entries true st.vs_index ^ "]" else "off")
+let vl_split_entry (t : string) : string * string =
+  match String.index_opt t '=' with
+  | Some i -> (String.sub t 0 i, String.sub t (i + 1) (String.length t - i - 1))
+  | None -> failwith "bad entry"
+let vl_cmd (args : string list) : string =
+  match args with
+  | ["new"; th; max; level; idx] ->
+    vl_cfg := { cf_threshold = big_of_string th; cf_max = big_of_string max; cf_level = big_of_string level; cf_index = (idx = "1") };
+    vl_state := vs0; "ok"
+  | ["flush"; tid; ents] ->
+    let mem = if ents = "-" then [] else
+        List.map (fun t ->
+            let (k, v) = vl_split_entry t in
+            match String.split_on_char ':' v with
+            | ["s"; len] -> (bytes_of_hex k, Some (vl_zeros (int_of_string len)))
+            | ["t"] -> (bytes_of_hex k, None)
+            | _ -> failwith "bad flush entry") (String.split_on_char ',' ents) in
+    (match vlogz_step !vl_cfg !vl_state (VFlush (N0, big_of_string tid, mem)) with
+     | Some st -> vl_state := st; vl_show ()
+     | None -> "refused")
+  | ["compact"; ins; tid; outs] ->
+    let ins = if ins = "-" then [] else List.map big_of_string (String.split_on_char ',' ins) in
+    let out = if outs = "-" then [] else
+        List.map (fun t ->
+            let (k, v) = vl_split_entry t in
+            match String.split_on_char ':' v with
+            | ["p"; p] -> (bytes_of_hex k, vloc_encode (vloc_with_pointer (vv_ptr (String.split_on_char '.' p))))
+            | ["i"; len] -> (bytes_of_hex k, vloc_encode (vloc_inline (vl_zeros (int_of_string len))))
+            | ["t"] -> (bytes_of_hex k, [])
+            | _ -> failwith "bad compact entry") (String.split_on_char ',' outs) in
+    (match vlogz_step !vl_cfg !vl_state (VCompact (ins, big_of_string tid, out)) with
+     | Some st -> vl_state := st; vl_show ()
+     | None -> "refused")
+  | ["reopen"] ->
+    (match vlogz_step !vl_cfg !vl_state (VReopen true) with Some st -> vl_state := st; vl_show () | None -> "refused")
+  | ["state"] -> vl_show ()
+  | _ -> "bad-command"
+
 let () =
   try
     while true do
@@ -1171,6 +1303,8 @@ let () =
             | "e3" :: rest -> e3_cmd rest
             | "rg" :: rest -> rg_cmd rest
             | "cp" :: rest -> cp_cmd rest
+            | "vp" :: rest -> vp_cmd rest
+            | "vl" :: rest -> vl_cmd rest
             | _ -> "bad-command"
           with
           | Not_found -> "error:not-found"
